@@ -263,6 +263,7 @@ def run(ctx):
     ctx.coverage["pair_stats"] = stats
     for fam, s1, s2 in pairs[:3]:
         ctx.sample({"family": fam, "state1": s1, "state2": s2})
+    outhash_section(ctx, env)
     # ---- 3. correspondence verdict ------------------------------------------------------------------
     ctx.coverage["disagreements"] = len(disagreements)
     if disagreements and not ctx.violations:
@@ -270,6 +271,85 @@ def run(ctx):
         ctx.violation("real SHA-256 cache key differs from the model's key (byte stream of the model no longer matches the code)",
                       {"kind": "correspondence", "correspondence": "hashing.GetTargetChangeHash (sha256) vs GrogModel.Hash.key", "family": fam,
                        "request": r, "impl": x, "model": y, "n_disagreements": len(disagreements)}, found_input=False)
+
+
+def gen_output(rng):
+    kind = rng.choice(["file", "file", "dir"])
+    o = {"kind": kind, "path": rng.choice(["", "o", "o2", "d/o", "a b", "x" * 130, "out.bin"]),
+         "hash": rng.choice([None, "", "ab", "0123456789abcdef0123456789abcdef", "h" * 64]),
+         "size": rng.choice([0, 1, 127, 128, 300, 16384, 2 ** 31, 2 ** 40 + 5])}
+    if kind == "file":
+        o["exec"] = rng.random() < 0.4
+    return o
+
+
+def canon_outputs(outs):
+    def norm(o):
+        d = None if o["hash"] is None else (o["hash"], o["size"])
+        return (o["kind"], o["path"], d, bool(o.get("exec", False)))
+    return tuple(sorted(map(norm, outs), key=repr))
+
+
+def outhash_section(ctx, env):
+    """output hash: real getOutputHash + proto.Marshal vs model (serOutput, outHash), and the pair oracle."""
+    rng = ctx.rng
+    n = 250 if ctx.tier == "quick" else 4000
+    pairs = []
+    for _ in range(n):
+        outs = [gen_output(rng) for _ in range(rng.randint(0, 4))]
+        outs2 = copy.deepcopy(outs)
+        kind = rng.choice(["perm", "field", "drop", "add", "same"])
+        if kind == "perm":
+            rng.shuffle(outs2)
+        elif kind == "field" and outs2:
+            o = rng.choice(outs2); f = rng.choice(["path", "hash", "size", "exec", "kind"])
+            g = gen_output(rng)
+            if f == "kind":
+                o["kind"] = "dir" if o["kind"] == "file" else "file"; o.pop("exec", None)
+                if o["kind"] == "file": o["exec"] = False
+            elif f == "exec":
+                if o["kind"] == "file": o["exec"] = not o["exec"]
+            else:
+                o[f] = g[f]
+        elif kind == "drop" and outs2:
+            outs2.pop(rng.randrange(len(outs2)))
+        elif kind == "add":
+            outs2.append(gen_output(rng))
+        pairs.append((kind, outs, outs2))
+    reqs = []
+    for kind, a, b in pairs:
+        for algo in ("sha256", "xxh3"):
+            reqs.append({"op": "hash.out", "algo": algo, "outputs": a})
+            reqs.append({"op": "hash.out", "algo": algo, "outputs": b})
+    impl = ctx.impl(reqs, env=env)
+    if impl is None:
+        return
+    sha = [r for r in reqs if r["algo"] == "sha256"]
+    model = ctx.model(sha)
+    dis = [(r, x, y) for r, x, y in zip(sha, [x for r, x in zip(reqs, impl) if r["algo"] == "sha256"], model) if x != y]
+    ctx.coverage["outhash_evaluations"] = len(reqs)
+    ctx.coverage["evaluations"] += len(reqs)
+    ctx.coverage["outhash_disagreements"] = len(dis)
+    nontriv = 0
+    for i, (kind, a, b) in enumerate(pairs):
+        same = canon_outputs(a) == canon_outputs(b)
+        nontriv += 0 if same else 1
+        for k, algo in enumerate(("sha256", "xxh3")):
+            x, y = impl[4 * i + 2 * k], impl[4 * i + 2 * k + 1]
+            if "hash" not in x or "hash" not in y:
+                continue
+            if same and x["hash"] != y["hash"]:
+                ctx.violation("equal output sets receive different output hashes", {"kind": "oracle", "oracle": "output hash canonical", "algo": algo,
+                              "outputs1": a, "outputs2": b, "hash1": x["hash"], "hash2": y["hash"]}, signature="outhash-equal-state-different-hash")
+            if not same and x["hash"] == y["hash"]:
+                ctx.violation("different output sets receive the same output hash", {"kind": "oracle", "oracle": "output hash injective", "algo": algo,
+                              "outputs1": a, "outputs2": b, "hash": x["hash"]}, signature="outhash-collision")
+    ctx.coverage["outhash_pairs_different"] = nontriv
+    if dis and not ctx.violations:
+        r, x, y = dis[0]
+        ctx.violation("real output hash / protobuf marshalling differs from the model", {"kind": "correspondence",
+                      "correspondence": "output.getOutputHash + proto.Marshal vs GrogModel.Proto.serOutput / Hash.outHash", "request": r, "impl": x, "model": y,
+                      "n_disagreements": len(dis)}, found_input=False)
 
 
 def replay(ctx, rep):
